@@ -101,6 +101,15 @@ func genC15(cfg Config, ws *WorldSet, i, perWorld int) C15Case {
 		plan.ClockSet, plan.ClockStart, plan.ClockStepNs = true, sim.Pick(ck, clockInstants), int64(sim.Pick(ck, []int{1000, 1000000, 999999999}))
 	}
 	base := strings.SplitN(kind, "/", 2)[0]
+	// what version control keeps next to the sources: in half of the cases the
+	// directory of the output (when it exists) and the module root hold a
+	// .gitattributes and a .gitignore - files like any other that a run must not touch
+	if vc := sim.Derive(cfg.Seed, "C15", "vcs", i); vc.Bool() && !strings.Contains(kind, "parent-missing") {
+		for _, d := range []string{filepath.Dir(iv.OutPath), "{W}/mod"} {
+			steps = append(steps, Step{Op: "write", Path: d + "/.gitattributes", Data: []byte("*.pb.go linguist-generated=true\n*.png binary\n")},
+				Step{Op: "write", Path: d + "/.gitignore", Data: []byte("*.test\n/bin/\n")})
+		}
+	}
 	if strings.Contains(kind, "other-pkg") {
 		steps = append(steps, Step{Op: "write", Path: "{W}/mod/zz_elsewhere/keep.go", Data: []byte("package zz_elsewhere\n")})
 	}
